@@ -63,7 +63,7 @@ Print Assumptions C10_order_and_grouping_irrelevant.
 (* ---- non-vacuity: a real history with a replacement, a failing add and a reconfiguration *)
 Definition ev0 : env :=
   {| ev_prefixes := []; ev_filters := []; ev_tests := []; ev_funcs := [];
-     ev_fix_d10 := true; ev_fix_d13 := false |}.
+     ev_fix_d10 := true; ev_fix_d13 := true |}.
 Definition nA : name := [97%N].
 Definition nB : name := [98%N].
 Definition t_plain (i : N) : tdesc :=
